@@ -720,6 +720,27 @@ func cmdGen(args []string) error {
 		r.add(first)
 		hists = append(hists, r.h)
 	}
+	// the endpoint installed last is the one the shared point belongs to in the map: take that one away first (a ring that
+	// keeps the point twice in its sorted keys is left with a point nobody owns), then the other, then bring them back
+	for _, first := range []int{1, 2} {
+		for _, viaAdd := range []bool{false, true} {
+			nextH++
+			r := newRunner(uc, nextH, "collision-remove-owner")
+			if viaAdd {
+				for _, e := range []int{3, first, 4, 3 - first} {
+					r.add(e)
+				}
+			} else {
+				r.refresh([]int{first, 3 - first, 3, 4})
+			}
+			r.remove(3 - first)
+			r.remove(first)
+			r.add(3 - first)
+			r.add(first)
+			r.remove(first)
+			hists = append(hists, r.h)
+		}
+	}
 	cc := cfg
 	cc.twins = 1
 	cc.walks = 1
